@@ -104,53 +104,110 @@ func (p *TypeInfoAmd64) GetTypeInfo(ctx llvm.Context, ftyp llvm.Type, typ llvm.T
 				info.Type1 = llvm.VectorType(ctx.FloatType(), 2)
 			}
 		} else {
-			types := elementTypes(p.td, typ)
-			if n == 2 {
-				// skip (i64|double,*) (*,i64/double)
-				if p.Sizeof(types[0]) == 8 || p.Sizeof(types[1]) == 8 {
-					info.Kind = AttrWidthType2
-					info.Type1 = types[0]
-					info.Type2 = types[1]
-					return info
-				}
-			}
-			var offset int
-			var index int
-			for i, et := range types {
-				align := p.Alignof(et)
-				offset = (offset + p.Sizeof(et) + align - 1) &^ (align - 1)
-				if offset < 8 {
-					continue
-				} else if offset > 8 {
-					index = i
+			// Split at the eightbyte boundary using the real member offsets: the
+			// flattened element list alone loses the tail padding of nested structs.
+			var lo, hi []llvm.Type
+			for _, e := range elementOffsets(p.td, typ, 0, nil) {
+				if e.offset < 8 {
+					lo = append(lo, e.typ)
 				} else {
-					index = i + 1
+					hi = append(hi, e.typ)
 				}
-				break
 			}
-			subType := func(subs []llvm.Type, left bool) llvm.Type {
+			subType := func(subs []llvm.Type, size int) llvm.Type {
 				if len(subs) == 1 {
 					return subs[0]
 				} else if len(subs) == 2 && subs[0] == ctx.FloatType() && subs[1] == ctx.FloatType() {
 					return llvm.VectorType(ctx.FloatType(), 2)
 				}
-				if left {
-					return ctx.Int64Type()
-				}
-				var n int
-				for _, sub := range subs {
-					align := p.Alignof(sub)
-					n = (n + p.Sizeof(sub) + align - 1) &^ (align - 1)
-				}
-				n = (n + info.Align - 1) &^ (info.Align - 1)
-				return ctx.IntType(n * 8)
+				return ctx.IntType(size * 8)
 			}
 			info.Kind = AttrWidthType2
-			info.Type1 = subType(types[0:index], true)
-			info.Type2 = subType(types[index:], false)
+			info.Type1 = subType(lo, 8)
+			info.Type2 = subType(hi, info.Size-8)
 		}
 	}
 	return info
+}
+
+// AdjustFuncInfo applies the System V rule that an aggregate is passed in
+// registers only if all of its eightbytes get one: when the INTEGER (6) or SSE (8)
+// registers left by the preceding arguments do not suffice, the whole aggregate
+// is passed in memory and the registers stay available for later arguments.
+func (p *TypeInfoAmd64) AdjustFuncInfo(ctx llvm.Context, info *FuncInfo) {
+	freeInt, freeSSE := 6, 8
+	if info.Return.Kind == AttrPointer {
+		freeInt--
+	}
+	isSSE := func(t llvm.Type) bool {
+		for t.TypeKind() == llvm.StructTypeKind || t.TypeKind() == llvm.ArrayTypeKind {
+			types := elementTypes(p.td, t)
+			if len(types) != 1 {
+				return false
+			}
+			t = types[0]
+		}
+		switch t.TypeKind() {
+		case llvm.FloatTypeKind, llvm.DoubleTypeKind, llvm.VectorTypeKind:
+			return true
+		}
+		return false
+	}
+	for _, ti := range info.Params {
+		var ni, ns int
+		switch ti.Kind {
+		case AttrVoid, AttrPointer:
+			continue
+		case AttrWidthType2:
+			for _, t := range []llvm.Type{ti.Type1, ti.Type2} {
+				if isSSE(t) {
+					ns++
+				} else {
+					ni++
+				}
+			}
+		default:
+			if isSSE(ti.Type1) {
+				ns++
+			} else {
+				ni++
+			}
+		}
+		if ni <= freeInt && ns <= freeSSE {
+			freeInt -= ni
+			freeSSE -= ns
+		} else if ti.Kind == AttrWidthType2 || (ti.Kind == AttrWidthType && ti.Type1.TypeKind() == llvm.VectorTypeKind) {
+			// (a <2 x float> would occupy a 16-byte stack slot, the C side expects 8)
+			ti.Kind = AttrPointer
+			ti.Type1 = llvm.PointerType(ti.Type, 0)
+			ti.Type2 = llvm.Type{}
+		}
+	}
+}
+
+type elementOffset struct {
+	typ    llvm.Type
+	offset int
+}
+
+// elementOffsets flattens typ into its scalar elements with their byte offsets.
+func elementOffsets(td llvm.TargetData, typ llvm.Type, base int, out []elementOffset) []elementOffset {
+	switch typ.TypeKind() {
+	case llvm.VoidTypeKind:
+	case llvm.StructTypeKind:
+		for i, t := range typ.StructElementTypes() {
+			out = elementOffsets(td, t, base+int(td.ElementOffset(typ, i)), out)
+		}
+	case llvm.ArrayTypeKind:
+		et := typ.ElementType()
+		size := int(td.TypeAllocSize(et))
+		for i, n := 0, typ.ArrayLength(); i < n; i++ {
+			out = elementOffsets(td, et, base+i*size, out)
+		}
+	default:
+		out = append(out, elementOffset{typ, base})
+	}
+	return out
 }
 
 type TypeInfoArm64 struct {
